@@ -332,7 +332,8 @@ impl<Aux> Vm<'_, Aux> {
                 closure,
             });
             if pushed.is_err() {
-                self.unwind(call_depth, len as usize);
+                // like any other failed call: the frames and the arguments are gone
+                self.unwind(call_depth, stack_offset as usize);
                 return Err(ExecutionErrorPayload::CallStackOverflow);
             }
         }
